@@ -233,6 +233,49 @@ def _same(a, b):
     return a == b
 
 
+def _slice_len_of(t):
+    """X if t is `X.len()` of a slice / Vec, else None"""
+    t = lib.strip_transparent(t)
+    if isinstance(t, tuple) and t and t[0] == 'call' and t[1].split('::')[-1] == 'len' and len(t[2]) == 1 and ('slice' in t[1] or 'Vec' in t[1]):
+        return lib.strip_transparent(t[2][0])
+    return None
+
+
+def _relational_safe(b, conds):
+    """checked `len(X) - e` / `a + n` justified by what the path has established about X's length:
+       * `X.get(p)` was Some, or `p < X.len()` held            =>  p + 1 <= len(X):  len(X) - p and len(X) - (p + 1) do not wrap
+       * `len(X) - a < n` was false (n <= len(X) - a)            =>  a + n <= len(X):  a + n does not wrap"""
+    st = lib.strip_transparent
+    below = []       # (X, p) with p < len(X)
+    fits = []        # (a, n) with a + n <= len(X) for some slice X
+    for cc in conds:
+        l = lib.literal(cc)
+        if l[0] == 'variant' and isinstance(l[1], tuple) and l[1][0] == 'call' and l[1][1].startswith('core::slice::') and l[1][1].split('::')[-1] == 'get' \
+                and len(l[1][2]) == 2 and lib.option_is_some(l[2]) is True:
+            idx = st(l[1][2][1])
+            if not (isinstance(idx, tuple) and idx and idx[0] == 'agg'):      # a plain index, not a range
+                below.append((st(l[1][2][0]), idx))
+        if l[0] == 'lt' and l[3] is True and isinstance(l[2], tuple) and _slice_len_of(l[2]) is not None:
+            below.append((_slice_len_of(l[2]), st(l[1])))
+        if l[0] == 'lt' and l[3] is False and isinstance(l[1], tuple) and st(l[1])[0] == 'bin' and st(l[1])[1] == 'Sub' and _slice_len_of(st(l[1])[2]) is not None:
+            fits.append((st(st(l[1])[3]), st(l[2])))
+    x, y = b[2], b[3]
+    if b[1] == 'SubWithOverflow':
+        X = _slice_len_of(x)
+        if X is None:
+            return False
+        y = st(y)
+        if (X, y) in below:
+            return True
+        if isinstance(y, tuple) and y[0] == 'bin' and y[1] == 'Add':
+            for p_, k_ in ((y[2], y[3]), (y[3], y[2])):
+                if lib.term_int(k_) == 1 and (X, st(p_)) in below:
+                    return True
+        return False
+    x, y = st(x), st(y)
+    return (x, y) in fits or (y, x) in fits
+
+
 def path_safe_assert(body, block):
     """path-sensitive discharge of an Assert: on every enumerated path through `block` the asserted condition is either a
     constant that holds, or the very comparison the path has already branched on with the outcome the assert needs
@@ -256,6 +299,19 @@ def path_safe_assert(body, block):
             n += 1
             c = e[2]
             exp = bool(body.blocks[block]['term'].get('expected', True))
+            if isinstance(c, tuple) and c[0] == 'overflow' and isinstance(c[1], tuple) and c[1][0] == 'bin' and c[1][1] == 'AddWithOverflow':
+                # `start + offset` with the offset found by position() in the part of a slice beginning at `start`, and
+                # that index plus a small constant: bounded by the slice length (<= isize::MAX), cannot wrap
+                a, b = c[1][2], c[1][3]
+                if lib.found_offset_sum(a, b) is not None:
+                    continue
+                inner, kk = (a, lib.term_int(b)) if lib.term_int(b) is not None else (b, lib.term_int(a))
+                if kk is not None and 0 <= kk < 2 ** 62 and isinstance(inner, tuple) and inner[0] == 'bin' and inner[1] == 'Add' \
+                        and lib.found_offset_sum(inner[2], inner[3]) is not None:
+                    continue
+            if isinstance(c, tuple) and c[0] == 'overflow' and isinstance(c[1], tuple) and c[1][0] == 'bin' and c[1][1] in ('AddWithOverflow', 'SubWithOverflow') \
+                    and _relational_safe(c[1], p.conds):
+                continue
             k = lib.term_int(c)
             if k is not None:
                 if bool(k) != exp:
